@@ -72,8 +72,10 @@ func OnlyCase() int { return int(envInt("VERIF_CASE", -1)) }
 // Cases calls f(idx) for every case index of this shard out of total (all of them are a pure
 // function of (seed, idx), so a single index can be replayed with VERIF_CASE).
 func Cases(total int, f func(idx int)) {
+	loopsStarted.Add(1)
 	if c := OnlyCase(); c >= 0 {
 		f(c)
+		loopsFinished.Add(1)
 		return
 	}
 	i, n := Shard()
@@ -82,7 +84,13 @@ func Cases(total int, f func(idx int)) {
 		lastCaseIdx.Store(int64(idx))
 		f(idx)
 	}
+	loopsFinished.Add(1)
 }
+
+// case loops begun / run to their last case: a test that is torn down in the middle of a loop (FailNow or
+// Goexit from the testing package, e.g. after a race report) still runs the deferred Close, which then says
+// that the shard did not evaluate all of its cases.
+var loopsStarted, loopsFinished atomic.Int64
 
 // progress of the case loop, for the stall monitor (a harness need not call Mark)
 var (
@@ -323,7 +331,7 @@ func (r *Rec) Close() {
 	for _, n := range r.viols {
 		nv += n
 	}
-	r.emit(map[string]any{"t": "done", "violations": nv})
+	r.emit(map[string]any{"t": "done", "violations": nv, "complete": loopsStarted.Load() == loopsFinished.Load(), "last_case": lastCaseIdx.Load()})
 	if r.f != nil {
 		r.f.Close()
 	}
